@@ -22,6 +22,14 @@ CLAIMED = {
     ),
 }
 
+FRAG = os.path.join(HERE, "manifest.d")
+if os.path.isdir(FRAG):
+    for f in sorted(os.listdir(FRAG)):
+        if f.endswith(".json"):
+            j = json.load(open(os.path.join(FRAG, f)))
+            CLAIMED[j["property_id"]] = dict(category=j["category"], text=j["text"], design_ref=j.get("design_ref", "DESIGN.md section 2"),
+                                             note=j["note"], technique=j.get("technique", ""))
+
 NOT_YET = "check not built yet in this round; planned per DESIGN.md section 2"
 
 
